@@ -261,20 +261,30 @@ func (pg *ProgGen) stmt(depth int) []mt.Stmt {
 			nb = r.Range(2, 3)
 		}
 		x := mt.If{}
+		var innerIf []string
 		for i := 0; i < nb; i++ {
 			x.Conds = append(x.Conds, pg.cond())
 			// variables set in a branch are only conditionally defined: snapshot scope
 			iv, sv := len(pg.intVars), len(pg.strVars)
 			x.Bodies = append(x.Bodies, pg.Body(depth-1, 3))
+			innerIf = append(append(innerIf, pg.intVars[iv:]...), pg.strVars[sv:]...)
 			pg.intVars, pg.strVars = pg.intVars[:iv], pg.strVars[:sv]
 		}
 		if r.P(1, 2) {
 			x.HasElse = true
 			iv, sv := len(pg.intVars), len(pg.strVars)
 			x.Else = pg.Body(depth-1, 2)
+			innerIf = append(append(innerIf, pg.intVars[iv:]...), pg.strVars[sv:]...)
 			pg.intVars, pg.strVars = pg.intVars[:iv], pg.strVars[:sv]
 		}
-		return []mt.Stmt{x}
+		outIf := []mt.Stmt{x}
+		if len(innerIf) > 0 && r.P(1, 2) {
+			// a set in the branch taken is visible after endif; in a branch not taken it leaves the name undefined (prints empty)
+			for _, n := range innerIf {
+				outIf = append(outIf, mt.T("<"+n+"="), mt.P(mt.V(n)), mt.T(">"))
+			}
+		}
+		return outIf
 	case 7, 8, 9:
 		pg.Fors++
 		if pg.inLoop > 0 {
@@ -302,6 +312,9 @@ func (pg *ProgGen) stmt(depth int) []mt.Stmt {
 			f.Body = append(f.Body, pg.loopMeta()...)
 		}
 		f.Body = append(f.Body, mt.T(","))
+		// names first assigned inside the body: still visible after endfor when the loop ran (printed as probes below;
+		// they are not used in later expressions because an empty sequence leaves them undefined)
+		inner := append(append([]string{}, pg.intVars[iv:]...), pg.strVars[sv:]...)
 		pg.intVars, pg.strVars = pg.intVars[:iv], pg.strVars[:sv]
 		pg.inLoop--
 		pg.loopInts, pg.loopStrs = pg.loopInts[:li], pg.loopStrs[:ls]
@@ -310,6 +323,11 @@ func (pg *ProgGen) stmt(depth int) []mt.Stmt {
 			f.Else = []mt.Stmt{mt.T("(empty)")}
 		}
 		out := []mt.Stmt{f}
+		if len(inner) > 0 && r.P(2, 3) {
+			for _, n := range inner {
+				out = append(out, mt.T("<"+n+"="), mt.P(mt.V(n)), mt.T(">"))
+			}
+		}
 		if pg.inLoop > 0 && r.P(2, 3) {
 			// the enclosing loop's counters after the inner loop ended
 			out = append(out, pg.loopMeta()...)
